@@ -170,6 +170,7 @@ type World struct {
 	noActors    bool
 	ending      atomic.Bool // the run is over: runners are being stopped
 	freeRunners atomic.Int64
+	httpEarly   atomic.Int64
 	freeID      int64 // != 0: runs outside a bubble; its hosts carry the id
 	setup       bool  // setup phase: PG gate auto-executes
 
@@ -259,6 +260,18 @@ func (w *World) harnessFail(format string, a ...any) {
 type simTransport struct{}
 
 func (simTransport) RoundTrip(req *http.Request) (*http.Response, error) {
+	if w := theWorld; w != nil && !w.free && w.plan != nil && w.plan.Faults.EarlyRefuseEvery > 0 && !w.healed && directRT == nil {
+		// connection refused before a byte of the request was read (the
+		// body is closed unread, as a real transport does on a dial error)
+		if n := w.httpEarly.Add(1); n%int64(w.plan.Faults.EarlyRefuseEvery) == 0 {
+			if req.Body != nil {
+				req.Body.Close()
+			}
+			w.stat("fault_http_refused_before_body", 1)
+			w.stat("fault_total", 1)
+			return nil, fmt.Errorf("dial tcp %s: connect: connection refused", req.URL.Hostname())
+		}
+	}
 	var body []byte
 	if req.Body != nil {
 		body, _ = io.ReadAll(req.Body)
